@@ -36,7 +36,7 @@ def shard_setup(obs) -> None:
 
 
 def gen_cases(tier: str, seed: int):
-    n = {"quick": 420, "thorough": 6000}[tier]
+    n = {"quick": 420, "thorough": 30000}[tier]
     rng = np.random.default_rng([seed, 3])
     combos = [(k, ik) for k in zoo.SYSTEMS for ik in zoo.compatible_integrators(k)]
     for i in range(n):
